@@ -21,26 +21,26 @@ pub struct Seed {
 pub const SEEDS: &[Seed] = &[
     Seed {
         name: "plain-functions",
-        nflags: 10,
+        nflags: 11,
         files: &[(
             "lib.cairo",
-            "⟦0:¦// a comment at the top\n⟧fn ⟦5:helper¦helper2⟧(x: u8) -> u8 {\n    x + ⟦4:1¦2⟧\n}\n⟦1:¦\n// a comment between items\n\n⟧fn f(a: u8) -> u8 {\n⟦2:¦    let _unused = 5_u8;\n⟧    let b = ⟦9:helper¦helper2⟧(a);\n⟦3:¦    // a comment inside the body\n⟧    b * 2\n⟦6:}¦⟧\n⟦8:fn g(x: felt252) -> felt252 {\n    x * 2\n}\n¦⟧⟦7:¦fn h(x: felt252) -> felt252 { x + ⟧\n",
+            "⟦0:¦// a comment at the top\n⟧⟦1:¦fn k(x: felt252) -> felt252 {\n    x - 1\n}\n⟧fn ⟦5:helper¦helper2⟧(x: u8) -> u8 {\n    x + ⟦4:1¦2⟧\n}\n⟦10:¦\n// a comment between items\n\n⟧fn f(a: u8) -> u8 {\n⟦2:¦    let _unused = 5_u8;\n⟧    let b = ⟦9:helper¦helper2⟧(a);\n⟦3:¦    // a comment inside the body\n⟧    b * 2\n⟦6:}¦⟧\n⟦8:fn g(x: felt252) -> felt252 {\n    x * 2\n}\n¦⟧⟦7:¦fn h(x: felt252) -> felt252 { x + ⟧⟦1:fn k(x: felt252) -> felt252 {\n    x - 1\n}\n¦⟧\n",
         )],
     },
     Seed {
         name: "struct-trait-generics",
-        nflags: 9,
+        nflags: 10,
         files: &[(
             "lib.cairo",
-            "⟦0:¦// header\n⟧#[derive(Copy, Drop)]\nstruct P<T> {\n    x: T,\n⟦1:¦    // field comment\n⟧    y: ⟦2:T¦u8⟧,\n}\ntrait Sum<T> {\n    fn sum(self: P<T>) -> T;\n}\n⟦3:¦const K: u8 = 3;\n⟧impl SumU8 of Sum<u8> {\n    fn sum(self: P<u8>) -> u8 {\n        self.x + self.⟦4:y¦z⟧\n    }\n}\n⟦5:fn mk(a: u8) -> P<u8> {\n    P { x: a, y: 1 }\n}\n¦⟧⟦6:¦fn mk(a: u8) -> P<u8> {\n    P { x: a, y: 2 }\n}\n⟧fn f(a: u8) -> u8 {\n    ⟦7:mk(a)¦P { x: a, y: a }⟧.sum()\n}\n⟦8:¦impl SumU8b of Sum<u8> { fn sum(self: P<u8>) -> u8 { 0 } }\n⟧",
+            "⟦0:¦// header\n⟧#[derive(Copy, Drop)]\nstruct P<T> {\n⟦1:    x: T,\n¦⟧⟦9:¦    // field comment\n⟧    y: ⟦2:T¦u8⟧,\n⟦1:¦    x: T,\n⟧}\ntrait Sum<T> {\n    fn sum(self: P<T>) -> T;\n}\n⟦3:¦const K: u8 = 3;\n⟧impl SumU8 of Sum<u8> {\n    fn sum(self: P<u8>) -> u8 {\n        self.x + self.⟦4:y¦z⟧\n    }\n}\n⟦5:fn mk(a: u8) -> P<u8> {\n    P { x: a, y: 1 }\n}\n¦⟧⟦6:¦fn mk(a: u8) -> P<u8> {\n    P { x: a, y: 2 }\n}\n⟧fn f(a: u8) -> u8 {\n    ⟦7:mk(a)¦P { x: a, y: a }⟧.sum()\n}\n⟦8:¦impl SumU8b of Sum<u8> { fn sum(self: P<u8>) -> u8 { 0 } }\n⟧",
         )],
     },
     Seed {
         name: "derives-and-plugins",
-        nflags: 8,
+        nflags: 9,
         files: &[(
             "lib.cairo",
-            "⟦0:¦//! inner doc\n⟧#[derive(⟦1:Copy, Drop, PartialEq, Serde¦Drop, Serde⟧)]\nstruct S {\n    a: u8,\n    b: felt252,\n}\n⟦2:¦\n\n⟧#[derive(Drop, ⟦3:PartialEq¦Debug⟧)]\nenum E {\n    A: S,\n    B,\n}\n#[generate_trait]\nimpl SI of ST {\n    fn dbl(self: @S) -> u8 {\n        *self.a * ⟦4:2¦3⟧\n    }\n}\nfn f(s: S) -> bool {\n⟦5:¦    let _t = s.dbl();\n⟧    let e = E::A(s);\n    ⟦6:e == E::B¦false⟧\n}\n⟦7:¦fn ser(s: S) -> Array<felt252> { let mut out = array![]; s.serialize(ref out); out }\n⟧",
+            "⟦0:¦//! inner doc\n⟧#[derive(⟦1:Copy, Drop, PartialEq, Serde¦Drop, Serde⟧)]\nstruct S {\n⟦2:    a: u8,\n¦⟧    b: felt252,\n⟦2:¦    a: u8,\n⟧}\n⟦8:¦\n\n⟧#[derive(Drop, ⟦3:PartialEq¦Debug⟧)]\nenum E {\n    A: S,\n    B,\n}\n#[generate_trait]\nimpl SI of ST {\n    fn dbl(self: @S) -> u8 {\n        *self.a * ⟦4:2¦3⟧\n    }\n}\nfn f(s: S) -> bool {\n⟦5:¦    let _t = s.dbl();\n⟧    let e = E::A(s);\n    ⟦6:e == E::B¦false⟧\n}\n⟦7:¦fn ser(s: S) -> Array<felt252> { let mut out = array![]; s.serialize(ref out); out }\n⟧",
         )],
     },
     Seed {
@@ -75,6 +75,14 @@ pub const SEEDS: &[Seed] = &[
             ("a.cairo", "⟦5:¦// a\n\n⟧pub const ⟦3:K¦K2⟧: u8 = ⟦6:10¦11⟧;\npub trait T<X> {\n    fn get(self: X) -> u8;\n}\npub impl TU8 of T<u8> {\n    fn get(self: u8) -> u8 { self / ⟦7:2¦3⟧ }\n}\n"),
             ("b.cairo", "use super::a::{T, TU8};\n⟦8:¦// b\n⟧pub fn ⟦2:via_b¦via_b2⟧(x: u8) -> u8 {\n    x.get() + ⟦9:TU8::get(x)¦T::<u8>::get(x) + (⟧\n}\n"),
         ],
+    },
+    Seed {
+        name: "reorderings",
+        nflags: 9,
+        files: &[(
+            "lib.cairo",
+            "⟦0:¦// top\n⟧#[derive(Drop, Copy, PartialEq, Serde)]\nstruct Pair {\n⟦1:    a: felt252,\n¦⟧    b: u8,\n⟦1:¦    a: felt252,\n⟧}\n#[derive(Drop, Copy)]\nenum Choice {\n⟦2:    Left: felt252,\n¦⟧    Right: u8,\n⟦2:¦    Left: felt252,\n⟧}\ntrait T {\n⟦3:    fn one(self: @Pair) -> felt252;\n¦⟧    fn two(self: @Pair) -> u8;\n⟦3:¦    fn one(self: @Pair) -> felt252;\n⟧}\nimpl I of T {\n⟦4:    fn one(self: @Pair) -> felt252 { *self.a }\n¦⟧    fn two(self: @Pair) -> u8 { *self.b }\n⟦4:¦    fn one(self: @Pair) -> felt252 { *self.a }\n⟧}\n⟦5:fn make(x: felt252, y: u8) -> Pair {\n    Pair { a: x, b: y }\n}\n¦⟧fn pick(c: Choice) -> felt252 {\n    match c {\n⟦6:        Choice::Left(v) => v,\n¦⟧        Choice::Right(w) => w.into(),\n⟦6:¦        Choice::Left(v) => v,\n⟧    }\n}\n⟦5:¦fn make(x: felt252, y: u8) -> Pair {\n    Pair { a: x, b: y }\n}\n⟧fn f(⟦7:x: felt252, y: u8¦y: u8, x: felt252⟧) -> felt252 {\n    let p = make(x, y);\n    p.one() + p.two().into() + pick(Choice::Right(y))\n}\n⟦8:¦fn bad() -> Pair { Pair {} }\n⟧",
+        )],
     },
 ];
 
@@ -256,7 +264,7 @@ fn run_all(ctx: &mut Ctx) {
 pub static C13: CheckDef = CheckDef {
     id: "C13",
     level: "model_checking",
-    rule: "Model: project content = render(seed, flags), flags in {0,1}^m (m = 8..10 per seed): comment at top / between items / inside a body, extra let, extra const item / const statement, identifier renamed at the definition only or consistently (also across files), literal changed, type changed, closing brace deleted, unterminated item inserted, item deleted / replaced / duplicated impl, derive list changed, second module file edited, value out of range. An edit flips one flag; a step is (edit, query) with query in {diagnostics+Sierra, none}. Seeds: plain functions; struct+trait+generics; derive/plugin-generated code; a two-file module tree; consts and const statements; closures + loops + matches with an enum variant added consistently; a three-file tree with inline modules, re-exports, cross-file consts / traits / impls and renames (quick: first 3). Enumerated: EVERY step sequence of length <= 2 (thorough: <= 3) from the initial content and from each of the m single-flag contents, by depth-first search where every node is a fork()ed copy-on-write image of the real RootDatabase (override_file_content! applied to the live database). Oracle: at every queried node, hash(diagnostics text with line:col) and hash(Sierra text) of the incremental database equal those of the same content compiled in a fork of a pristine image that never saw another version of the project (memoised per content); that shortcut is itself bound to a brand-new RootDatabase on every start content. states = distinct contents reached, transitions = steps executed, traces_validated_against_impl = queried nodes compared (every transition is executed on the implementation; there is no separate model to drift).",
+    rule: "Model: project content = render(seed, flags), flags in {0,1}^m (m = 8..10 per seed): comment at top / between items / inside a body, extra let, extra const item / const statement, identifier renamed at the definition only or consistently (also across files), literal changed, type changed, closing brace deleted, unterminated item inserted, item deleted / replaced / duplicated impl, pure REORDERINGS (struct members, enum variants, trait and impl items, match arms, parameters, whole functions swapped in place), derive list changed, second module file edited, value out of range. An edit flips one flag; a step is (edit, query) with query in {diagnostics+Sierra, none}. Seeds: plain functions; struct+trait+generics; derive/plugin-generated code; a two-file module tree; consts and const statements; closures + loops + matches with an enum variant added consistently; a three-file tree with inline modules, re-exports, cross-file consts / traits / impls and renames (quick: first 3). Enumerated: EVERY step sequence of length <= 2 (thorough: <= 3) from the initial content and from each of the m single-flag contents, by depth-first search where every node is a fork()ed copy-on-write image of the real RootDatabase (override_file_content! applied to the live database). Oracle: at every queried node, hash(diagnostics text with line:col) and hash(Sierra text) of the incremental database equal those of the same content compiled in a fork of a pristine image that never saw another version of the project (memoised per content); that shortcut is itself bound to a brand-new RootDatabase on every start content. states = distinct contents reached, transitions = steps executed, traces_validated_against_impl = queried nodes compared (every transition is executed on the implementation; there is no separate model to drift).",
     assumptions: &["fork() copy-on-write semantics; single-threaded workers (no rayon pool exists at fork time)", "the reference for a content is a database that compiled only an unrelated warm-up crate; equality with a brand-new database is checked on the start contents"],
     run: run_all,
     stack_mb: 32,
